@@ -23,6 +23,8 @@
 (*                                 whose creating transaction was rolled back                *)
 (*     FIX_LocalRollback = FALSE : AddContent does not rebuild the tree after a failed write *)
 (*     FIX_DeleteAfter   = FALSE : objectTree.Delete marks the tree deleted before the write *)
+(*     FIX_ValidateFirst = FALSE : AddContentWithValidator drops the in-memory tree of a       *)
+(*                                 snapshot before the caller's validator has accepted it     *)
 (*     FIX_NotifyAfterCommit = FALSE : headstorage.UpdateEntry tells its observers (head sync) *)
 (*                                 the new heads inside the write transaction, before it     *)
 (*                                 commits; NOT repaired in the code (any-store has no       *)
@@ -38,7 +40,7 @@ CONSTANTS NT,          \* trees; their roots are the change ids 1..NT; tree 1 = 
           MaxAcl,      \* ACL records beyond the root
           MaxFaults,   \* injected errors + crashes in one behaviour
           FIX_NamedResult, FIX_AclWriteFirst, FIX_DeferredReset, FIX_LocalRollback, FIX_DeleteAfter,
-          FIX_NotifyAfterCommit,
+          FIX_NotifyAfterCommit, FIX_ValidateFirst,
           DEV_HeadsOutsideTx, DEV_SpaceTwoTx,
           GEN          \* TRUE: keep the history variable (behaviour generation); FALSE: model checking
 
@@ -218,7 +220,7 @@ Init ==
     /\ U = [i \in Ids |-> IF i \in Trees THEN RootChange(i) ELSE NoChange]
     /\ disk = EmptyDisk /\ tx = <<>> /\ mem = ClosedMem /\ op = NoOp
     /\ pre = EmptyDisk /\ post = EmptyDisk
-    /\ last = [res |-> "none", retry |-> FALSE, kind |-> "none"]
+    /\ last = [res |-> "none", retry |-> FALSE, kind |-> "none", snap |-> FALSE]
     /\ pend = NoOp /\ faults = 0 /\ prov = <<>> /\ hist = <<>>
 
 (* ------------------------------------------------------------------ finishing an operation *)
@@ -249,7 +251,7 @@ MemOnErr(o, m, d, pc) ==
 
 Finish(o, res, d, m) ==
     /\ op' = NoOp
-    /\ last' = [res |-> res, retry |-> o.retry, kind |-> o.kind] /\ prov' = Prov(o)
+    /\ last' = [res |-> res, retry |-> o.retry, kind |-> o.kind, snap |-> o.snap] /\ prov' = Prov(o)
     /\ pend' = IF res = "injected" THEN [o EXCEPT !.pc = 0, !.prog = <<>>, !.fat = 0, !.fate = "ok", !.retry = TRUE] ELSE NoOp
     /\ mem' = m
     /\ hist' = Log(HistEntry("op", o, res, d, m))
@@ -267,7 +269,7 @@ Start(o, prog, m1) ==
 Immediate(o, res) ==
     /\ pre' = disk /\ post' = IF o.kind = "delete" THEN Eff(disk, Del(o.t)) ELSE disk
     /\ op' = NoOp /\ pend' = NoOp
-    /\ last' = [res |-> res, retry |-> o.retry, kind |-> o.kind] /\ prov' = Prov(o)
+    /\ last' = [res |-> res, retry |-> o.retry, kind |-> o.kind, snap |-> o.snap] /\ prov' = Prov(o)
     /\ hist' = Log(HistEntry("op", o, res, disk, mem))
     /\ UNCHANGED <<disk, tx, mem, faults>>
 
@@ -304,6 +306,21 @@ StartLocal(t, snap, retry) ==
              /\ Start([Base("local", t, retry) EXCEPT !.snap = snap, !.new = <<<<c, o>>>>, !.m0 = m],
                       AddProg(t, <<<<c, o>>>>, m2.hs, m2.root, m.def),
                       [mem EXCEPT !.tr[t] = m2])
+
+\* AddContentWithValidator whose validator rejects the change: nothing is written; the tree must stay as it is
+StartLocalRejected(t, snap) ==
+    LET m == mem.tr[t] IN
+    /\ mem.space /\ m.st = "open"
+    /\ IF snap /\ ~FIX_ValidateFirst
+         \* `ot.tree = &Tree{}` has already happened when the validator runs
+         THEN /\ mem' = [mem EXCEPT !.tr[t] = [m EXCEPT !.hs = {}, !.root = 0, !.att = {}]]
+              /\ pre' = disk /\ post' = disk /\ op' = NoOp /\ pend' = NoOp
+              /\ last' = [res |-> "refused", retry |-> FALSE, kind |-> "localv", snap |-> snap]
+              /\ prov' = Prov([Base("localv", t, FALSE) EXCEPT !.snap = snap])
+              /\ hist' = Log(HistEntry("op", [Base("localv", t, FALSE) EXCEPT !.snap = snap], "refused", disk, mem'))
+              /\ UNCHANGED <<disk, tx, faults>>
+         ELSE Immediate([Base("localv", t, FALSE) EXCEPT !.snap = snap], "refused")
+    /\ UNCHANGED U
 
 \* sequence of the elements of a set of ids in increasing order, paired with consecutive order numbers after mx
 RECURSIVE Ordered(_, _)
@@ -368,6 +385,7 @@ Quiet == Idle /\ pend.kind = "none"
 OpSpace   == Quiet /\ StartSpace(FALSE)
 OpCreate  == Quiet /\ \E t \in Trees : StartCreate(t, FALSE)
 OpLocal   == Quiet /\ \E t \in Trees, s \in BOOLEAN : StartLocal(t, s, FALSE)
+OpLocalV  == Quiet /\ \E t \in Trees, s \in BOOLEAN : StartLocalRejected(t, s)
 OpRemote  == Quiet /\ \E t \in Trees : \E P \in SUBSET (OfTree(t) \ {t}) : StartRemote(t, P, FALSE)
 OpAcl     == Quiet /\ StartAcl(mem.acl + 1, FALSE)
 OpDelete  == Quiet /\ \E t \in Trees : StartDelete(t, FALSE)
@@ -466,11 +484,11 @@ Crash ==
     /\ ~Idle /\ faults < MaxFaults
     /\ faults' = faults + 1
     /\ tx' = <<>> /\ mem' = ClosedMem /\ op' = NoOp /\ pend' = NoOp
-    /\ last' = [res |-> "crash", retry |-> op.retry, kind |-> op.kind] /\ prov' = Prov([op EXCEPT !.fat = op.pc, !.fate = "crash"])
+    /\ last' = [res |-> "crash", retry |-> op.retry, kind |-> op.kind, snap |-> op.snap] /\ prov' = Prov([op EXCEPT !.fat = op.pc, !.fate = "crash"])
     /\ hist' = Log(HistEntry("op", [op EXCEPT !.fat = op.pc, !.fate = "crash"], "crash", disk, ClosedMem))
     /\ UNCHANGED <<U, disk, pre, post>>
 
-Next == OpSpace \/ OpCreate \/ OpLocal \/ OpRemote \/ OpAcl \/ OpDelete \/ OpRetry
+Next == OpSpace \/ OpCreate \/ OpLocal \/ OpLocalV \/ OpRemote \/ OpAcl \/ OpDelete \/ OpRetry
         \/ OpenTree \/ OpenDeferred \/ AuthorAdd \/ Reopen \/ Step \/ Crash
 
 Spec == Init /\ [][Next]_vars
